@@ -58,6 +58,7 @@ func c05SiteDecls() []string {
 		"type T struct{ a int }",
 		"func foo() {\n\ta()\n\tb()\n}",
 		"func seven() {\n\tp.Foo(1)\n\tw := foo(7)\n\tuse(w)\n}",
+		"func nine() {\n\tfoo(1, 2, 3)\n\ttri(a, b, c)\n\tbefore()\n\tp := acquire(1)\n\tq := acquire(2)\n\tmid()\n\trelease(q)\n\tafter()\n}",
 		"func eight() {\n\tswitch {\n\tcase c:\n\t\tx := foo(8)\n\t\tuse(x)\n\t\tafter()\n\tdefault:\n\t\tfoo(9)\n\t}\n}",
 	}
 }
@@ -75,6 +76,9 @@ func c05Patches() []c05Patch {
 		{"stmt-elision", &model.Change{Kind: "stmts", Meta: xv, Lines: model.L("-v := foo(x)", " DOTS_1", "-use(v)", "+mark(x)")}},
 		{"stmt-insert", &model.Change{Kind: "stmts", Meta: xv, Lines: model.L("-v := foo(x)", "+v, err := mark(x)", "+if err != nil {", "+\treturn", "+}")}},
 		{"stmt-delete", &model.Change{Kind: "stmts", Meta: xv, Lines: model.L(" v := foo(x)", "-use(v)")}},
+		{"expr-elision-tail", &model.Change{Kind: "expr", Meta: xm, Lines: model.L("-foo(DOTS_1, x)", "+mark(DOTS_1, x)")}},
+		{"expr-elision-ctx", &model.Change{Kind: "expr", Meta: xm, Lines: model.L(" tri(", " DOTS_1,", "-x,", "+mark(x),", " )")}},
+		{"stmt-elision-retry", &model.Change{Kind: "stmts", Meta: xv, Lines: model.L(" v := acquire(x)", " DOTS_1", "-release(v)", "+releaseAll(v, x)")}},
 		{"funcdecl", &model.Change{Kind: "decl", Lines: model.L("-func foo() {", "+func mark() {", " DOTS_1", " }")}},
 		{"typedecl", &model.Change{Kind: "decl", Lines: model.L("-type T struct{ a int }", "+type T struct{ mark int }")}},
 		{"valuedecl", &model.Change{Kind: "decl", Meta: xm, Lines: model.L("-var three = foo(x)", "+var three = mark(x)")}},
